@@ -23,11 +23,11 @@ def sweep(ctx):
     """all 256 content types x boundary lengths x prefixes around every boundary, for the three parsers"""
     rng = ctx.rng
     cases = []
-    lens = [0, 1, 2, 3, 255, 256, 16639, 16640, 16641, 32768, 65535]
+    lens = [0, 1, 2, 3, 255, 256, 767, 768, 1023, 1024, 4095, 4096, 16383, 16384, 16639, 16640, 16641, 32768, 65535]
     types = list(range(256))
     for t in types:
-        for ln in (lens if ctx.thorough or t in (0, 20, 21, 22, 23, 24, 25, 255) else rng.sample(lens, 3)):
-            v = rng.choice((0x0301, 0x0303, 0x0304, 0xfefd, rng.randrange(65536)))
+        for ln in (lens if ctx.thorough or t in (0, 20, 21, 22, 23, 24, 25, 255) else rng.sample(lens, 5)):
+            v = rng.choice(VERS + (rng.randrange(65536), rng.randrange(65536)))
             body = rng.randbytes(min(ln, 16645))
             trail = rng.randbytes(rng.choice((0, 0, 1, 7)))
             buf = bytes([t]) + v.to_bytes(2, 'big') + ln.to_bytes(2, 'big') + body + trail
@@ -57,6 +57,50 @@ def sweep(ctx):
     return cases
 
 
+def judge(ctx, nv, fam, op, buf, ln_, a, b):
+    """the property's framing oracle applied to one input of a record parser (any bytes: the oracle reads the header itself)"""
+    p = len(buf)
+    t = buf[0] if p >= 1 else -1
+    v = int.from_bytes(buf[1:3], 'big') if p >= 3 else -1
+    ln = int.from_bytes(buf[3:5], 'big') if p >= 5 else 0
+    ra, side = core.split_side(a)
+    ctx.count(fam + '/' + op, core.res_class(ra))
+    ctx.distinct.add((op, t if t in (20, 21, 22, 23, 24) else 'other', min(ln, 16641), min(p, 6) if p < 5 + ln else 'full', core.res_class(ra)))
+    kind, want = framing_oracle(op, t, v, ln, None, p, len(buf))
+    bad = None
+    if kind == 'class':
+        if not ra.startswith('incomplete'):
+            bad = 'input shorter than the header must answer Incomplete'
+    elif kind == 'exact':
+        if ra != want:
+            bad = 'must answer "%s"' % want
+    else:  # complete record present
+        if op in ('tls_raw', 'tls_encrypted'):
+            name = 'Raw' if op == 'tls_raw' else 'Enc'
+            exp = 'ok %d (%s (Hdr %d %d %d) %s)' % (want, name, t, v, ln, core.span(5, ln))
+            if ra != exp:
+                bad = 'must answer "%s"' % exp
+        else:
+            if ra.startswith('incomplete'):
+                bad = 'a complete record must not answer Incomplete'
+            elif ra.startswith('ok '):
+                if int(ra.split(' ')[1]) != want or not ra.split(' ', 2)[2].startswith('(Plain (Hdr %d %d %d) ' % (t, v, ln)):
+                    bad = 'must consume exactly 5+%d bytes and return the header verbatim' % ln
+            if side.get('remptr') == 'bad':
+                bad = 'remainder does not start right after the record'
+    if bad:
+        nv[0] += 1
+        ctx.cov['impl_vs_oracle_failures'] += 1
+        if nv[0] <= 5:
+            ctx.violation('%s on %s: %s; implementation answers "%s"' % (op, ln_[:80], bad, ra[:200]),
+                          {'lines': [ln_], 'impl': ra, 'model': b, 'demand': bad}, key='%s:%d:%d:%d' % (op, t, ln, p))
+    if common.proj_framing_line(ra, ln_) != common.proj_framing_line(b, ln_):
+        ctx.cov['model_vs_impl_disagreements'] += 1
+        if not bad:
+            ctx.violation('correspondence broken on %s: implementation "%s", model "%s"' % (ln_[:80], ra[:200], b[:200]),
+                          {'lines': [ln_], 'impl': ra, 'model': b}, found_input=False, key='corr:' + ln_[:60])
+
+
 def run(ctx):
     core.build_harness()
     ok = common.lean_step(ctx, MODULES)
@@ -64,46 +108,19 @@ def run(ctx):
     cases = sweep(ctx)
     lines = ['%s %s' % (c[0], core.hexs(c[5])) for c in cases]
     impl, model = ctx.run_both(lines)
-    nv = 0
+    nv = [0]
     for c, ln_, a, b in zip(cases, lines, impl, model):
         op, t, v, ln, p, buf = c
-        ra, side = core.split_side(a)
-        ctx.count('framing_sweep/' + op, core.res_class(ra))
-        ctx.distinct.add((op, t if t in (20, 21, 22, 23, 24) else 'other', min(ln, 16641), min(p, 6) if p < 5 + ln else 'full', core.res_class(ra)))
-        kind, want = framing_oracle(op, t, v, ln, None, p, len(buf))
-        bad = None
-        if kind == 'class':
-            if not ra.startswith('incomplete'):
-                bad = 'input shorter than the header must answer Incomplete'
-        elif kind == 'exact':
-            if ra != want:
-                bad = 'must answer "%s"' % want
-        else:  # complete record present
-            if op in ('tls_raw', 'tls_encrypted'):
-                name = 'Raw' if op == 'tls_raw' else 'Enc'
-                exp = 'ok %d (%s (Hdr %d %d %d) %s)' % (want, name, t, v, ln, core.span(5, ln))
-                if ra != exp:
-                    bad = 'must answer "%s"' % exp
-            else:
-                if ra.startswith('incomplete'):
-                    bad = 'a complete record must not answer Incomplete'
-                elif ra.startswith('ok '):
-                    if int(ra.split(' ')[1]) != want or not ra.split(' ', 2)[2].startswith('(Plain (Hdr %d %d %d) ' % (t, v, ln)):
-                        bad = 'must consume exactly 5+%d bytes and return the header verbatim' % ln
-                if side.get('remptr') == 'bad':
-                    bad = 'remainder does not start right after the record'
-        if bad:
-            nv += 1
-            ctx.cov['impl_vs_oracle_failures'] += 1
-            if nv <= 5:
-                ctx.violation('%s on %s: %s; implementation answers "%s"' % (op, ln_[:80], bad, ra[:200]),
-                              {'lines': [ln_], 'impl': ra, 'model': b, 'demand': bad}, key='%s:%d:%d:%d' % (op, t, ln, p))
-        if common.proj_framing_line(ra, ln_) != common.proj_framing_line(b, ln_):
-            ctx.cov['model_vs_impl_disagreements'] += 1
-            if not bad:
-                ctx.violation('correspondence broken on %s: implementation "%s", model "%s"' % (ln_[:80], ra[:200], b[:200]),
-                              {'lines': [ln_], 'impl': ra, 'model': b}, found_input=False, key='corr:' + ln_[:60])
+        judge(ctx, nv, 'framing_sweep', op, buf, ln_, a, b)
     ctx.sample({'line': lines[len(lines) // 2][:200], 'impl': core.split_side(impl[len(lines) // 2])[0][:200], 'model': model[len(lines) // 2][:200]})
+    # 1b. the coverage-guided corpus of the record parsers, judged by the same oracle
+    cgl = [l for l in common.cg_lines(ctx, ('tls_raw ', 'tls_encrypted ', 'tls_plaintext ', 'tls_parser ')) if l.split(' ')[0] in OPS]
+    if cgl:
+        ci, cm = ctx.run_both(cgl)
+        for ln_, a, b in zip(cgl, ci, cm):
+            h = ln_.split(' ')[1]
+            judge(ctx, nv, 'cg', ln_.split(' ')[0], b'' if h == '-' else bytes.fromhex(h), ln_, a, b)
+    common.run_cg(ctx, ('tls_header ', 'tls_parser '), common.proj_framing_line)
     # 2. well-formed records of every content type with exact value expectations, suffixes, corruptions
     n = 1500 if ctx.thorough else 150
     exact, mutants = common.gen_cases(ctx, ['tls_raw', 'tls_encrypted', 'tls_plaintext', 'tls_parser', 'tls_header', 'too_large',
@@ -124,7 +141,7 @@ def run(ctx):
     common.run_differential(ctx, mutants, common.proj_framing_line)
     common.lean_failure_violation(ctx, ok)
     return ctx.finish(LEVEL,
-        rule='sweep: 256 content types x boundary lengths {0,1,2,3,255,256,16639,16640,16641,32768,65535} x prefixes around every boundary (all prefixes for short records) through the three record parsers, plus every registered version x lengths around the cap and other plausible limits x content types (the cap depends on neither), judged by the framing oracle of the property; plus well-formed records of every content type (exact values), strict prefixes (exact Needed), suffixes, length-field corruptions (differential under the framing projection); distinct = (op, type class, length class, prefix class, outcome) resp. (family, outcome shape)',
+        rule='sweep: 256 content types x boundary lengths {0,1,2,3,255,256,767,768,1023,1024,4095,4096,16383,16384,16639,16640,16641,32768,65535} x versions x prefixes around every boundary (all prefixes for short records) through the three record parsers, plus every registered version x lengths around the cap and other plausible limits x content types (the cap depends on neither), judged by the framing oracle of the property; plus well-formed records of every content type (exact values), strict prefixes (exact Needed), suffixes, length-field corruptions (differential under the framing projection); the coverage-guided corpus of the record parsers judged by the same framing oracle; distinct = (op, type class, length class, prefix class, outcome) resp. (family, outcome shape)',
         checker_cmd='cd /verif/lean && lake build TlsModel.Props.C02',
         assumptions=['inputs with fewer than 5 bytes: only "Incomplete" is demanded (the property fixes the count once the header is available)'])
 
